@@ -679,14 +679,150 @@ Proof. intros a k V _ D. exact (Blots.proofs.DisplayNumDischarge5.log10_floor_mo
 
 (* ---- how valid_expr is tied to the parser: the ONE place where the text -> AST model (PegToItems.v) creates a number is
         number_item (decimal tokens: Rust's FromStr = rn_decimal; 0x / 0b tokens: the repaired accumulator loop), and every
-        number it creates is a valid binary64; Pratt.v moves the INum item into ENum unchanged.  (A theorem "the AST of every
-        accepted text satisfies valid_expr" over the whole of PegToItems + Pratt is NOT proved; the ALL stream evaluates
-        valid_progb on every parsed program.) ---- *)
+        number it creates is a valid binary64; Pratt.v moves the INum item into ENum unchanged.  (The theorem "the AST of every
+        accepted text satisfies valid_expr" over the whole of PegToItems + Pratt is C01_parsed_program_valid below (PF2); the
+        ALL stream also evaluates valid_progb on every parsed program.) ---- *)
 Require Import Blots.NumText Blots.PrattTypes Blots.PegToItems Blots.proofs.AllValidLit.
 Theorem C01_parsed_number_literal_valid : forall tok x, number_item tok = INum x -> valid_num x.
 Proof. exact number_item_valid. Qed.
 Check C01_parsed_number_literal_valid : forall tok x, number_item tok = INum x -> valid_num x.
 Print Assumptions C01_parsed_number_literal_valid.
+
+(* ---- PF2: VALIDITY OF PARSED PROGRAMS and the never-Panic statement FROM BYTES (proofs/TextValidPratt.v, proofs/TextValid.v).
+        valid_prog — the hypothesis of C01_program_no_panic_all — holds of everything the text -> AST model returns:
+        (a) every item PegToItems.conv builds (ANY text, ANY pair tree, any fuel) holds valid binary64 numbers only
+            (a number enters through number_item; every other arm copies text slices / converted sub-trees);
+        (b) the Pratt stage (pest's loop + the closures of pairs_to_expr_inner, ANY operator table, ANY fuel) maps such a
+            stream to an expression satisfying valid_expr (ENum only from INum; everything else copies sub-trees);
+        (c) so every statement of parse_text_stmts text / the program of parse_text_ast text is valid;
+        (d) END TO END: for every oracle with oracle_valid / oracle_display_safe, valid inputs, EVERY text the PEG stage
+            accepts: the run of the evaluator (complete built-in set, builtin_all_fit = modulo percentile's list-length
+            condition, exactly as C01_program_no_panic_all) over the statements parsed FROM THE BYTES shows a Panic only
+            where the parse of that statement itself is pairs_to_expr's `unreachable!` (TGluePanic — a parse-side event the
+            evaluator never sees; counted by the TEXT-EVAL stream: 0; not produced by the grammar, not proved here);
+            every value computed is a valid binary64 hereditarily.  No TGlueFuel hypothesis is needed: the Pratt model's
+            fuel exhaustion is shown as Unmodelled, not Panic. ---- *)
+Require Blots.Peg Blots.gen.Grammar Blots.Pratt Blots.proofs.TextValidPratt Blots.proofs.TextValid.
+Require Blots.proofs.TextValidNoGlue Blots.proofs.TextValidStreams.
+Module TextValidLayer.
+Import Blots.Pratt Blots.TextRun Blots.proofs.TextValidPratt Blots.proofs.TextValid.
+
+Theorem C01_parsed_items_valid : forall text fuel t, valid_itemb (conv text fuel t) = true.
+Proof. exact conv_valid. Qed.
+Check C01_parsed_items_valid : forall text fuel t, valid_itemb (conv text fuel t) = true.
+Print Assumptions C01_parsed_items_valid.
+
+Theorem C01_pratt_preserves_valid : forall tbl imap pmap fuel its e,
+  valid_itemsb its = true -> parse_items tbl imap pmap fuel its = Outcome.Ok (Some e) -> valid_expr e.
+Proof. exact parse_items_valid. Qed.
+Check C01_pratt_preserves_valid : forall tbl imap pmap fuel its e,
+  valid_itemsb its = true -> parse_items tbl imap pmap fuel its = Outcome.Ok (Some e) -> valid_expr e.
+Print Assumptions C01_pratt_preserves_valid.
+
+Theorem C01_parsed_statements_valid : forall text l,
+  parse_text_stmts text = TIOk l -> Forall (fun t => match t with TStmt s => valid_stmtb s = true | _ => True end) l.
+Proof. exact parsed_stmts_valid. Qed.
+Check C01_parsed_statements_valid : forall text l,
+  parse_text_stmts text = TIOk l -> Forall (fun t => match t with TStmt s => valid_stmtb s = true | _ => True end) l.
+Print Assumptions C01_parsed_statements_valid.
+
+Theorem C01_parsed_program_valid : forall text p, parse_text_ast text = TPOk p -> valid_prog p.
+Proof. exact parsed_program_valid. Qed.
+Check C01_parsed_program_valid : forall text p, parse_text_ast text = TPOk p -> valid_prog p.
+Print Assumptions C01_parsed_program_valid.
+
+(* from bytes, no hypothesis on the text beyond acceptance: a Panic result is a glue panic of the parse *)
+Theorem C01_text_run_panic_only_from_glue : forall o, oracle_valid o -> oracle_display_safe o ->
+  forall release inputs text l, valid_inputs inputs -> parse_text_stmts text = TIOk l ->
+  exists sr, run_text_res (eval_top release (binop_all o) (builtin_all_fit o)) inputs text = TRun sr
+             /\ Forall (fun rs => (fst rs = RFail Panic -> existsb is_glue_panic l = true)
+                                  /\ valid_resultb (fst rs) = true) (snd sr).
+Proof. exact text_run_panic_is_glue. Qed.
+Check C01_text_run_panic_only_from_glue : forall o, oracle_valid o -> oracle_display_safe o ->
+  forall release inputs text l, valid_inputs inputs -> parse_text_stmts text = TIOk l ->
+  exists sr, run_text_res (eval_top release (binop_all o) (builtin_all_fit o)) inputs text = TRun sr
+             /\ Forall (fun rs => (fst rs = RFail Panic -> existsb is_glue_panic l = true)
+                                  /\ valid_resultb (fst rs) = true) (snd sr).
+Print Assumptions C01_text_run_panic_only_from_glue.
+
+Theorem C01_text_run_no_panic_all : forall o, oracle_valid o -> oracle_display_safe o ->
+  forall release inputs text l, valid_inputs inputs ->
+  parse_text_stmts text = TIOk l -> Forall (fun t => t <> TGluePanic) l ->
+  exists sr, run_text_res (eval_top release (binop_all o) (builtin_all_fit o)) inputs text = TRun sr
+             /\ Forall (fun rs => fst rs <> RFail Panic /\ valid_resultb (fst rs) = true) (snd sr).
+Proof. exact text_run_no_panic. Qed.
+Check C01_text_run_no_panic_all : forall o, oracle_valid o -> oracle_display_safe o ->
+  forall release inputs text l, valid_inputs inputs ->
+  parse_text_stmts text = TIOk l -> Forall (fun t => t <> TGluePanic) l ->
+  exists sr, run_text_res (eval_top release (binop_all o) (builtin_all_fit o)) inputs text = TRun sr
+             /\ Forall (fun rs => fst rs <> RFail Panic /\ valid_resultb (fst rs) = true) (snd sr).
+Print Assumptions C01_text_run_no_panic_all.
+
+(* the hypotheses are satisfiable: a text with numbers (decimal, hex, exponent), a list, a record, a lambda, calls, an input
+   reference and an output; three statements, none a glue panic / glue error / model fuel; valid inputs *)
+Definition pf2_sample_text : string :=
+  "f = (x, y) => x * 2.5 + y" ++ String (Ascii.ascii_of_nat 10)
+  ("output total = sum(map([1, 0x10, 3e2], v => f(v, #a))) " ++ String (Ascii.ascii_of_nat 10) "{k: f(1, 2), l: [0.1]}").
+Definition pf2_sample_inputs : list (string * value) := [("a"%string, VList [VNum (num_of_Z 3); VStr "s"])].
+Example C01_text_run_hypotheses_satisfiable :
+  valid_inputs pf2_sample_inputs /\
+  exists l, parse_text_stmts pf2_sample_text = TIOk l /\ Forall (fun t => t <> TGluePanic) l
+            /\ exists p, stmts_all_ok l = Some p /\ List.length p = 3%nat.
+Proof.
+  split; [vm_compute; reflexivity|].
+  remember (parse_text_stmts pf2_sample_text) as r eqn:E. vm_compute in E. subst r.
+  eexists. split; [reflexivity|]. split; [repeat constructor; discriminate|].
+  eexists. split; [reflexivity|reflexivity].
+Qed.
+Example C01_text_run_sample_no_panic : forall release,
+  exists sr, run_text_res (eval_top release (binop_all oracle_trivial) (builtin_all_fit oracle_trivial))
+                          pf2_sample_inputs pf2_sample_text = TRun sr
+             /\ Forall (fun rs => fst rs <> RFail Panic /\ valid_resultb (fst rs) = true) (snd sr).
+Proof.
+  intro release. destruct C01_text_run_hypotheses_satisfiable as [Hi [l [Hp [Hg _]]]].
+  exact (C01_text_run_no_panic_all oracle_trivial oracle_trivial_valid oracle_trivial_display_safe release
+           pf2_sample_inputs pf2_sample_text l Hi Hp Hg).
+Qed.
+
+(* ---- the glue-panic hypothesis: (1) the Pratt half is PROVED — pest's loop + the closures of pairs_to_expr_inner never reach a
+        panic arm on a DEEPLY ALTERNATING stream (operand (infix operand)..., operand = prefix.. primary postfix.., nested streams
+        too), for ANY table / maps / fuel; (2) so the hypothesis reduces to a DECIDABLE shape predicate of the PEG output,
+        text_streams_ok (computable: Example below runs it by vm_compute on the real grammar); (3) that the grammar produces
+        only such forests is kept as a Definition, NOT proved. ---- *)
+Import Blots.proofs.TextValidNoGlue Blots.proofs.TextValidStreams.
+
+Theorem C01_pratt_no_panic_on_alternating_streams : forall tbl imap pmap fuel its,
+  stream_ok tbl imap pmap its = true -> parse_items tbl imap pmap fuel its <> Panic.
+Proof. exact parse_items_no_panic. Qed.
+Check C01_pratt_no_panic_on_alternating_streams : forall tbl imap pmap fuel its,
+  stream_ok tbl imap pmap its = true -> parse_items tbl imap pmap fuel its <> Panic.
+Print Assumptions C01_pratt_no_panic_on_alternating_streams.
+
+Theorem C01_text_no_glue_panic_of_streams : forall text l,
+  parse_text_stmts text = TIOk l -> text_streams_ok text = true -> Forall (fun t => t <> TGluePanic) l.
+Proof. exact text_no_glue_panic. Qed.
+Check C01_text_no_glue_panic_of_streams : forall text l,
+  parse_text_stmts text = TIOk l -> text_streams_ok text = true -> Forall (fun t => t <> TGluePanic) l.
+Print Assumptions C01_text_no_glue_panic_of_streams.
+
+Theorem C01_text_run_no_panic_streams : forall o, oracle_valid o -> oracle_display_safe o ->
+  forall release inputs text l, valid_inputs inputs ->
+  parse_text_stmts text = TIOk l -> text_streams_ok text = true ->
+  exists sr, run_text_res (eval_top release (binop_all o) (builtin_all_fit o)) inputs text = TRun sr
+             /\ Forall (fun rs => fst rs <> RFail Panic /\ valid_resultb (fst rs) = true) (snd sr).
+Proof. exact text_run_no_panic_streams. Qed.
+Check C01_text_run_no_panic_streams : forall o, oracle_valid o -> oracle_display_safe o ->
+  forall release inputs text l, valid_inputs inputs ->
+  parse_text_stmts text = TIOk l -> text_streams_ok text = true ->
+  exists sr, run_text_res (eval_top release (binop_all o) (builtin_all_fit o)) inputs text = TRun sr
+             /\ Forall (fun rs => fst rs <> RFail Panic /\ valid_resultb (fst rs) = true) (snd sr).
+Print Assumptions C01_text_run_no_panic_streams.
+
+(* NOT proved: the grammar only produces deeply alternating statement streams (then the three theorems above hold of EVERY text) *)
+Definition C01_text_streams_ok_full : Prop := forall text, text_streams_ok text = true.
+Example C01_text_streams_ok_sample : text_streams_ok pf2_sample_text = true.
+Proof. vm_compute. reflexivity. Qed.
+End TextValidLayer.
 (* the callback hypothesis `vcb` of the per-call theorems is inhabited: FunctionDef::call itself, at any depth *)
 Example C01_vcb_inhabited : vcb (AD true (binop_all oracle_trivial) (builtin_all_fit oracle_trivial) 3 []).
 Proof.
